@@ -2,10 +2,10 @@ package main
 
 import (
 	"flag"
-	"runtime/pprof"
 	"fmt"
 	"os"
 	"runtime"
+	"runtime/pprof"
 	"strings"
 )
 
@@ -154,7 +154,6 @@ func cmdProve(args []string) {
 		os.Exit(1)
 	}
 }
-
 
 func init() {
 	if os.Getenv("RJV_DEBUG_CONTRACTS") != "" {
